@@ -169,7 +169,6 @@ func Interpret(ops []opData) Expect {
 		opIndex[op.id] = i
 		e.Meta[i] = copyMap(op.meta)
 		e.OpKinds = append(e.OpKinds, op.kind)
-		e.ActorsMay[op.author] = true
 		effective := true
 		switch op.kind {
 		case "create":
@@ -242,6 +241,11 @@ func Interpret(ops []opData) Expect {
 		}
 		if effective {
 			e.ActorsMust[op.author] = true
+		}
+		// "edits of unknown targets change nothing": such an edit must not make its author an actor.
+		// For metadata and no-op operations the statement is silent, their authors may be listed.
+		if !(op.kind == "edit" && !effective) {
+			e.ActorsMay[op.author] = true
 		}
 	}
 	e.NOps = len(ops)
